@@ -248,6 +248,7 @@ impl<K: KeyT, V: ValT> World<K, V> {
             }
         });
         let stats = (co.hashes, co.alloc.allocs);
+        let mut forgot_now: Option<(i64, i64)> = None;
         match co.result {
             Ok(()) => {
                 for w in wrong {
@@ -255,7 +256,8 @@ impl<K: KeyT, V: ValT> World<K, V> {
                     acc.out.fatal = true;
                 }
                 if let Consume::ForgetAfter(_) = consume {
-                    self.forgot_tables += tables_of(&before);
+                    let st = slot.m.verif_state();
+                    forgot_now = Some((tables_of(&before), tables_of(&st)));
                     let ids: Vec<u64> = slot.model.iter().filter(|(kv, _)| !yielded.contains(kv)).flat_map(|(_, e)| [e.kid, e.vid]).collect();
                     mark_forgotten(ids.into_iter());
                     acc.probe("drain-forgotten");
@@ -276,6 +278,9 @@ impl<K: KeyT, V: ValT> World<K, V> {
                 }
                 acc.out.res = format!("drained {} of {}", yielded.len(), total);
                 self.post_map(acc, mi, before, stats, Cost::Exempt, false, 0, false);
+                if let Some((max_leak, _)) = forgot_now {
+                    self.account_forgotten(acc, max_leak);
+                }
             }
             Err(pn) => self.handle_panic(acc, pn, &[]),
         }
@@ -344,7 +349,7 @@ impl<K: KeyT, V: ValT> World<K, V> {
                     acc.out.fatal = true;
                 }
                 if let Consume::ForgetAfter(_) = consume {
-                    self.forgot_tables += tables_of(&before);
+                    self.account_forgotten(acc, tables_of(&before));
                     let ids: Vec<u64> = model.iter().filter(|(kv, _)| !yielded.contains(kv)).flat_map(|(_, e)| [e.kid, e.vid]).collect();
                     mark_forgotten(ids.into_iter());
                     acc.probe("into_iter-forgotten");
@@ -360,10 +365,34 @@ impl<K: KeyT, V: ValT> World<K, V> {
         }
     }
 
+    /// A lazy operation was `mem::forget`-ed: whatever tables it still owned are leaked by the
+    /// caller's choice, not by the collection. The number leaked is measured (allocator live
+    /// count minus what the hook reports as owned) and must not exceed what the iterator could
+    /// have owned.
+    pub(crate) fn account_forgotten(&mut self, acc: &mut Acc, max_leak: i64) {
+        let mut owned = 0i64;
+        for s in &self.maps {
+            owned += tables_of(&s.m.verif_state());
+        }
+        for s in &self.sets {
+            owned += tables_of(&s.s.verif_state());
+        }
+        let leaked = alloc::live_tables() - owned - self.forgot_tables;
+        if leaked < 0 || leaked > max_leak {
+            acc.internal("live-tables", format!("after mem::forget of an iterator {} tables are unaccounted for (it could own at most {})", leaked, max_leak));
+        } else {
+            self.forgot_tables += leaked;
+        }
+    }
+
     pub(crate) fn op_reserve(&mut self, acc: &mut Acc, mi: usize, n: Arg, fallible: bool, oom: bool) {
         let before = self.maps[mi].m.verif_state();
         let slot = &mut self.maps[mi];
         let (cap0, len0) = (slot.m.capacity(), slot.m.len());
+        if !arg_allowed(n, cap0) {
+            acc.out.res = "skipped".to_string();
+            return;
+        }
         let n = resolve_arg::<K, V>(n, cap0, len0);
         let huge = is_overflow_huge(n);
         let oom_huge = !huge && n >= (1 << 24);
@@ -448,6 +477,12 @@ impl<K: KeyT, V: ValT> World<K, V> {
         let before = self.maps[mi].m.verif_state();
         let slot = &mut self.maps[mi];
         let (cap0, len0) = (slot.m.capacity(), slot.m.len());
+        if let Some(a) = n {
+            if matches!(a, Arg::Abs(x) if x > 4096) {
+                acc.out.res = "skipped".to_string();
+                return;
+            }
+        }
         let n = n.map(|a| resolve_arg::<K, V>(a, cap0, len0));
         let co = call(|| match n {
             Some(n) => sut(|| slot.m.shrink_to(n)),
@@ -747,6 +782,10 @@ impl<K: KeyT, V: ValT> World<K, V> {
         let (cap, len) = (slot.m.capacity(), slot.m.len());
         if cap < len {
             acc.internal("capacity-below-len", format!("capacity()={} < len()={}", cap, len));
+            return;
+        }
+        if K::CLASS == ElemClass::Zst {
+            acc.out.res = "probe skipped (one possible key)".to_string();
             return;
         }
         let n = (cap - len).min(max as usize);
